@@ -56,8 +56,9 @@ class XsdSimpleType(XsdType, ValidationMixin[str | bytes, DecodedValueType]):
     """
     _special_types = {nm.XSD_ANY_TYPE, nm.XSD_ANY_SIMPLE_TYPE}
     _ADMITTED_TAGS: tuple[str, ...] = nm.XSD_SIMPLE_TYPE,
-    _REGEX_SPACE = re.compile(r'\s')
-    _REGEX_SPACES = re.compile(r'\s+')
+    # XSD white space is #x20, #x9, #xA and #xD only (not the Unicode white space of \s)
+    _REGEX_SPACE = re.compile(r'[\t\n\r]')
+    _REGEX_SPACES = re.compile(r'[ \t\n\r]+')
     _facets: dict[str | None, FacetsValueType]
 
     abstract: bool = False
@@ -465,7 +466,7 @@ class XsdSimpleType(XsdType, ValidationMixin[str | bytes, DecodedValueType]):
             case 'replace':
                 return self._REGEX_SPACE.sub(' ', text)
             case 'collapse':
-                return self._REGEX_SPACES.sub(' ', text).strip()
+                return self._REGEX_SPACES.sub(' ', text).strip(' ')
             case _:
                 return text
 
